@@ -42,7 +42,7 @@ META = {
 }
 
 PUBS = ['p1', 'p2', 'p3']
-MUTS = ['after_write', 'newest', 'batch', 'none_paused', 'neg_waives']
+MUTS = ['after_write', 'newest', 'batch', 'none_paused', 'neg_waives', 'nack_leader_only']
 
 
 def tlc_check(module, cfg, **kw):
@@ -297,7 +297,8 @@ def sv_judge(rep, rounds, trace, confirm=True):
 def sv_stats(events):
     st = {'rounds': 0, 'msgs': 0, 'ok': 0, 'refused': 0, 'timeouts': 0, 'nontrivial_ids': [], 'exact_refusals': 0,
           'races_same_exp': 0, 'aborted': 0, 'other_answers': 0, 'pauses': 0, 'rounds_with_pause': 0,
-          'none_on_occ': 0, 'none_refused': 0, 'sync_rounds': 0}
+          'none_on_occ': 0, 'none_refused': 0, 'sync_rounds': 0, 'noanswer': 0, 'fences': 0,
+          'conditional_all': 0}
     for e in events:
         if e['a'] == 'Aborted':
             st['aborted'] += 1
@@ -311,6 +312,9 @@ def sv_stats(events):
         st['none_refused'] += sum(1 for m in e['msgs'] if m['pol'] == 'none' and m['res'] == 'bad_request')
         st['msgs'] += len(e['msgs'])
         st['timeouts'] += e.get('timeouts', 0)
+        st['noanswer'] += e.get('noanswer', 0)
+        st['fences'] += sum(1 for m in e['msgs'] if m.get('kind') == 'fence')
+        st['conditional_all'] += sum(1 for m in e['msgs'] if m['pol'] == 'all' and m['exp'] != -1)
         st['other_answers'] += sum(1 for m in e['msgs'] if m['res'] == 'other')
         ok = [m for m in e['msgs'] if m['res'] == 'ok']
         rej = [m for m in e['msgs'] if m['res'] == 'incorrect_offset']
